@@ -1,4 +1,4 @@
-import BV.Lemmas.StreamExit
+import BV.Lemmas.StreamTerm5
 /-
 C20 — Streaming state machine honours its call contract.
 
@@ -248,6 +248,35 @@ theorem take_output_completes {s s' : St} {size : Nat} {out : Bytes} (hI : Inv s
       obtain ⟨_, rfl⟩ := h
       exact absurd rfl hout
 
+/-! ### termination of each call -/
+
+/-- **request_completes** (3), every call terminates: the three loops of the model are defined
+with fuel; with at least `callPot M s n = (2n + 2)(M + 8) + 17n + pending + 16` units
+(`n` bytes offered) `compress_stream` never runs out of it — it returns a value or one of the
+modelled panics.  Proved with explicit potential functions that strictly decrease on every
+`continue` (`slowStep_decreases`, `fastStep_decreases`, `mdStep_decreases`).  The only
+hypothesis on the payload encoder is a bound `B` on the bits of one answer (`M ≥ (190 + B)/8`
+bounds the bytes one invocation can leave pending).  The metadata loop's potential needs
+`encode_data(force_flush)` to end with `last_flush_pos_ = input_pos_` — the statement that was
+false at quality 0/1 + catable before the fix (the loop really spun). -/
+theorem call_terminates {o : Oracle} {B M fuel op cap : Nat} {input : Bytes} {s : St}
+    (hB : OracleBounded o B) (hM : (14 + 176 + B) / 8 ≤ M)
+    (hop : op ≤ 3) (hI : Inv s) (hw : s.inputPos + input.length < two64) (hl : s.lastBytesBits ≤ 14)
+    (hfuel : callPot M s input.length < fuel) :
+    compressStream o fuel s op input cap ≠ .fuel :=
+  compressStream_terminates hB hM hop hI hw hl hfuel
+
+/-- the side condition of `call_terminates` (a carry of at most 14 bits) holds after
+`ensure_initialized` and is preserved by every call and by `take_output` -/
+theorem carry_bound_invariant {o : Oracle} {B M fuel op cap : Nat} {input : Bytes} {s s' : St} {io' : Io} {r : Bool}
+    (hB : OracleBounded o B) (hM : (14 + 176 + B) / 8 ≤ M)
+    (hop : op ≤ 3) (hI : Inv s) (hw : s.inputPos + input.length < two64) (hl : s.lastBytesBits ≤ 14)
+    (h : compressStream o fuel s op input cap = .ok (s', io', r)) : s'.lastBytesBits ≤ 14 :=
+  compressStream_lbb hB hM hop hI hw hl h
+
+theorem carry_bound_initial (s : St) (h : s.isInitialized = false) : (ensureInitialized s).lastBytesBits ≤ 14 :=
+  ensureInitialized_lbb s h
+
 /-! ### non-vacuity -/
 
 /-- a fresh encoder satisfies the hypotheses after its first call -/
@@ -257,5 +286,7 @@ example : Inv (ensureInitialized St.new) := (inv_fresh ⟨{}, rfl⟩).1
 example : Contract.accepts .flushing 0 1 = false := by decide
 example : Contract.accepts (.metadata 5) 3 5 = true := by decide
 example : Contract.accepts .processing 3 16777217 = false := by decide
+/-- an oracle with bounded answers exists (e.g. the one that always answers with 3 bits) -/
+example : OracleBounded (fun _ _ => { bits := [true, false, true] }) 3 := fun _ _ => Nat.le_refl _
 
 end BV.Props.C20
